@@ -22,3 +22,9 @@ def tasks(tier, seed):
         func("bt.core.HedgeSecurity.update"),
         func("bt.core.CouponPayingHedgeSecurity.update"),
     ]
+
+
+def replay(o):
+    from pyvc.concrete import replay_scenario
+
+    return replay_scenario(o)
